@@ -185,49 +185,62 @@ theorem segs_cap_eq (p : Char → Bool) (v : Str) (segs : List Seg) (hv : v ≠ 
     (h : matchSegs segs { st with caps := some v :: st.caps } s = some r) :
     matchSegs (.item (.cap p) :: segs) st (v ++ s) = some r := by
   rw [matchSegs_item]; exact step_cap_stop p _ st v s r hv hp hs h
+theorem segs_openq_eq (q : Char) (segs : List Seg) (hq : q = '"' ∨ q = '\'')
+    (h : matchSegs segs { st with quote := some q } s = some r) :
+    matchSegs (.item .openq :: segs) st (q :: s) = some r := by
+  rw [matchSegs_item, step_openq _ _ _ _ hq]; exact h
+
+theorem segs_closeq_eq (q : Char) (segs : List Seg) (hq : st.quote = some q)
+    (h : matchSegs segs st s = some r) : matchSegs (.item .closeq :: segs) st (q :: s) = some r := by
+  rw [matchSegs_item, step_closeq _ _ _ _ hq]; exact h
 end eqs
 
-/-- the OFX declaration in normal form (double quotes) -/
-def ofxNF (s0 v1 s1 v2 s2 v3 s3 v4 s4 v5 bc gap R : Str) : Str :=
-  "<?OFX".toList ++ (s0 ++ ("OFXHEADER=\"".toList ++ (v1 ++ ("\"".toList ++ (s1 ++ ("VERSION=\"".toList ++ (v2 ++
-    ("\"".toList ++ (s2 ++ ("SECURITY=\"".toList ++ (v3 ++ ("\"".toList ++ (s3 ++ ("OLDFILEUID=\"".toList ++ (v4 ++
-    ("\"".toList ++ (s4 ++ ("NEWFILEUID=\"".toList ++ (v5 ++ ("\"".toList ++ (bc ++ ("?>".toList ++
-    (gap ++ R)))))))))))))))))))))))
+/-- the OFX declaration in normal form, each value between two copies of its quote character -/
+def ofxNF (s0 v1 s1 v2 s2 v3 s3 v4 s4 v5 bc gap R : Str) (q0 q1 q2 q3 q4 : Char) : Str :=
+  "<?OFX".toList ++ (s0 ++ ("OFXHEADER=".toList ++ (q0 :: (v1 ++ (q0 :: (s1 ++ ("VERSION=".toList ++ (q1 :: (v2 ++
+    (q1 :: (s2 ++ ("SECURITY=".toList ++ (q2 :: (v3 ++ (q2 :: (s3 ++ ("OLDFILEUID=".toList ++ (q3 :: (v4 ++
+    (q3 :: (s4 ++ ("NEWFILEUID=".toList ++ (q4 :: (v5 ++ (q4 :: (bc ++ ("?>".toList ++
+    (gap ++ R))))))))))))))))))))))))))))
 
-theorem v2_match (s0 v1 s1 v2 s2 v3 s3 v4 s4 v5 bc gap R : Str)
+theorem v2_match (s0 v1 s1 v2 s2 v3 s3 v4 s4 v5 bc gap R : Str) (q0 q1 q2 q3 q4 : Quote)
     (n0 : s0 ≠ []) (a0 : allSpace s0) (n1 : s1 ≠ []) (a1 : allSpace s1) (n2 : s2 ≠ []) (a2 : allSpace s2)
     (n3 : s3 ≠ []) (a3 : allSpace s3) (n4 : s4 ≠ []) (a4 : allSpace s4) (abc : allSpace bc) (ag : allSpace gap)
     (c1 : inClass isDigit v1) (c2 : inClass isDigit v2) (c3 : inClass isWord v3) (c4 : inClass isWordDash v4)
     (c5 : inClass isWordDash v5) (hR : ∀ c ∈ R.head?, isSpace c = false) :
-    reMatch v2Regex (ofxNF s0 v1 s1 v2 s2 v3 s3 v4 s4 v5 bc gap R) =
+    reMatch v2Regex (ofxNF s0 v1 s1 v2 s2 v3 s3 v4 s4 v5 bc gap R q0.ch q1.ch q2.ch q3.ch q4.ch) =
       some ([some v1, some v2, some v3, some v4, some v5], R) := by
   have hd : ∀ (c0 : Char) (r : Str), isSpace c0 = false → ∀ c ∈ (c0 :: r).head?, isSpace c = false := by
     intro c0 r h c hc; simp at hc; subst hc; exact h
-  have hq : ∀ (p : Char → Bool) (r : Str), p '"' = false → ∀ c ∈ ('"' :: r).head?, p c = false := by
-    intro p r h c hc; simp at hc; subst hc; exact h
-  have eq1 : ∀ r : Str, "\"".toList ++ r = '"' :: r := fun _ => rfl
-  unfold reMatch v2Regex ofxNF L W0 W1 C
+  have hq : ∀ (p : Char → Bool) (q : Quote) (r : Str), p '"' = false → p '\'' = false →
+      ∀ c ∈ (q.ch :: r).head?, p c = false := by
+    intro p q r h1 h2 c hc; simp at hc; subst hc; cases q <;> assumption
+  unfold reMatch v2Regex ofxNF L W0 W1 C Q Q'
   apply segs_lit_eq
   apply segs_ws1_eq (hne := n0) (hw := a0) (hs := hd _ _ (by decide))
   apply segs_lit_eq
-  apply segs_cap_eq (hv := c1.1) (hp := c1.2) (hs := hq _ _ (by decide))
-  apply segs_lit_eq
+  apply segs_openq_eq (hq := quote_cases q0)
+  apply segs_cap_eq (hv := c1.1) (hp := c1.2) (hs := hq _ _ _ (by decide) (by decide))
+  apply segs_closeq_eq (hq := rfl)
   apply segs_ws1_eq (hne := n1) (hw := a1) (hs := hd _ _ (by decide))
   apply segs_lit_eq
-  apply segs_cap_eq (hv := c2.1) (hp := c2.2) (hs := hq _ _ (by decide))
-  apply segs_lit_eq
+  apply segs_openq_eq (hq := quote_cases q1)
+  apply segs_cap_eq (hv := c2.1) (hp := c2.2) (hs := hq _ _ _ (by decide) (by decide))
+  apply segs_closeq_eq (hq := rfl)
   apply segs_ws1_eq (hne := n2) (hw := a2) (hs := hd _ _ (by decide))
   apply segs_lit_eq
-  apply segs_cap_eq (hv := c3.1) (hp := c3.2) (hs := hq _ _ (by decide))
-  apply segs_lit_eq
+  apply segs_openq_eq (hq := quote_cases q2)
+  apply segs_cap_eq (hv := c3.1) (hp := c3.2) (hs := hq _ _ _ (by decide) (by decide))
+  apply segs_closeq_eq (hq := rfl)
   apply segs_ws1_eq (hne := n3) (hw := a3) (hs := hd _ _ (by decide))
   apply segs_lit_eq
-  apply segs_cap_eq (hv := c4.1) (hp := c4.2) (hs := hq _ _ (by decide))
-  apply segs_lit_eq
+  apply segs_openq_eq (hq := quote_cases q3)
+  apply segs_cap_eq (hv := c4.1) (hp := c4.2) (hs := hq _ _ _ (by decide) (by decide))
+  apply segs_closeq_eq (hq := rfl)
   apply segs_ws1_eq (hne := n4) (hw := a4) (hs := hd _ _ (by decide))
   apply segs_lit_eq
-  apply segs_cap_eq (hv := c5.1) (hp := c5.2) (hs := hq _ _ (by decide))
-  apply segs_lit_eq
+  apply segs_openq_eq (hq := quote_cases q4)
+  apply segs_cap_eq (hv := c5.1) (hp := c5.2) (hs := hq _ _ _ (by decide) (by decide))
+  apply segs_closeq_eq (hq := rfl)
   apply segs_ws0_eq (hw := abc) (hs := hd _ _ (by decide))
   apply segs_lit_eq
   apply segs_ws0_eq (hw := ag) (hs := hR)
@@ -317,18 +330,216 @@ theorem v2Xml_nf (lay : V2Lay) (qv qe qs : Quote) (h1 : lay.xmlVersion = some qv
     show "encoding=".toList = "encoding".toList ++ ['='] by decide,
     show "standalone=".toList = "standalone".toList ++ ['='] by decide]
 
-theorem v2Ofx_nf (lay : V2Lay) (h : V2) (hq : lay.dquoted = true) (R : Str) :
+theorem v2Ofx_nf (lay : V2Lay) (h : V2) (R : Str) :
     v2Ofx lay h ++ R = ofxNF lay.s0 (pyStrInt h.ofxheader) lay.s1 (pyStrInt h.version) lay.s2 h.security lay.s3
-      h.oldfileuid lay.s4 h.newfileuid lay.beforeClose lay.gap R := by
-  simp only [V2Lay.dquoted, Bool.and_eq_true, decide_eq_true_eq] at hq
-  obtain ⟨⟨⟨⟨q0, q1⟩, q2⟩, q3⟩, q4⟩ := hq
-  simp [v2Ofx, qattr, ofxNF, q0, q1, q2, q3, q4, Quote.ch,
-    show "OFXHEADER=\"".toList = "OFXHEADER".toList ++ ['=', '"'] by decide,
-    show "VERSION=\"".toList = "VERSION".toList ++ ['=', '"'] by decide,
-    show "SECURITY=\"".toList = "SECURITY".toList ++ ['=', '"'] by decide,
-    show "OLDFILEUID=\"".toList = "OLDFILEUID".toList ++ ['=', '"'] by decide,
-    show "NEWFILEUID=\"".toList = "NEWFILEUID".toList ++ ['=', '"'] by decide,
-    show "\"".toList = ['"'] by decide]
+      h.oldfileuid lay.s4 h.newfileuid lay.beforeClose lay.gap R lay.q0.ch lay.q1.ch lay.q2.ch lay.q3.ch lay.q4.ch := by
+  simp [v2Ofx, qattr, ofxNF,
+    show "OFXHEADER=".toList = "OFXHEADER".toList ++ ['='] by decide,
+    show "VERSION=".toList = "VERSION".toList ++ ['='] by decide,
+    show "SECURITY=".toList = "SECURITY".toList ++ ['='] by decide,
+    show "OLDFILEUID=".toList = "OLDFILEUID".toList ++ ['='] by decide,
+    show "NEWFILEUID=".toList = "NEWFILEUID".toList ++ ['='] by decide]
+
+
+theorem dropWhile_ws (w T : Str) (hw : allSpace w) : (w ++ T).dropWhile isSpace = T.dropWhile isSpace := by
+  induction w with
+  | nil => rfl
+  | cons c cs ih =>
+    simp only [List.cons_append, List.dropWhile, hw c (by simp)]
+    exact ih (fun x hx => hw x (by simp [hx]))
+
+theorem dropWhile_idem (T : Str) : (T.dropWhile isSpace).dropWhile isSpace = T.dropWhile isSpace := by
+  induction T with
+  | nil => rfl
+  | cons c cs ih =>
+    cases h : isSpace c with
+    | true => simp only [List.dropWhile, h]; exact ih
+    | false => simp [List.dropWhile, h]
+
+theorem ws0_def (k : St → Str → Option Res) (st : St) (s : Str) :
+    stepItem .ws0 k st s = k st (s.dropWhile isSpace) := rfl
+
+theorem ws0_absorb (k : St → Str → Option Res) (st : St) (w s : Str) (hw : allSpace w) :
+    stepItem .ws0 k st (w ++ s) = stepItem .ws0 k st s := by
+  simp only [ws0_def, dropWhile_ws w s hw]
+
+theorem ws1_to_ws0 (k : St → Str → Option Res) (st : St) (w s : Str) (hne : w ≠ []) (hw : allSpace w) :
+    stepItem .ws1 k st (w ++ s) = stepItem .ws0 k st s := by
+  cases w with
+  | nil => exact absurd rfl hne
+  | cons c cs =>
+    simp only [stepItem, List.cons_append, hw c (by simp), if_true]
+    rw [dropWhile_ws cs s (fun x hx => hw x (by simp [hx]))]
+
+theorem lit_head_fail (l s : Str) (k : St → Str → Option Res) (st : St) (c0 : Char) (l' : Str) (hl : l = c0 :: l')
+    (hs : ∀ c ∈ s.head?, c ≠ c0) : stepItem (.lit l) k st s = none := by
+  subst hl
+  cases s with
+  | nil => simp [stepItem, List.isPrefixOf]
+  | cons c cs =>
+    have : (c0 == c) = false := by simpa using fun e => hs c (by simp) e.symm
+    simp [stepItem, List.isPrefixOf, this]
+
+def pseudoS (nm v : Str) : Option Quote → Str
+  | some q => nm ++ '=' :: q.ch :: (v ++ [q.ch])
+  | none => []
+
+theorem pseudo_eq (name v : String) (oq : Option Quote) : pseudo name v oq = pseudoS name.toList v.toList oq := by
+  cases oq <;> rfl
+
+theorem dropWhile_q (s : Str) : ('?' :: s).dropWhile isSpace = '?' :: s := by
+  simp [List.dropWhile, show isSpace '?' = false by decide]
+
+/-- one optional pseudo-attribute, present or not, with a pending `\\s*` in front -/
+theorem xml_stage (nm : Str) (c0 : Char) (nm' : Str) (v : Str) (p : Char → Bool) (oq : Option Quote) (xs T : Str)
+    (more : List Seg) (st : St) (hnm : nm = c0 :: nm') (hc0 : isSpace c0 = false)
+    (hv : v ≠ []) (hp : ∀ c ∈ v, p c = true) (hpq : ∀ q : Quote, p q.ch = false) (hxs : allSpace xs)
+    (habs : oq = none → ∀ c ∈ (T.dropWhile isSpace).head?, c ≠ c0)
+    (hnext : ∀ st', (stepItem .ws0 (matchSegs more) st' T).isSome = true) :
+    (stepItem .ws0 (matchSegs (.opt [.lit (nm ++ ['=']), .openq, .cap p, .closeq] :: W0 :: more)) st
+      (pseudoS nm v oq ++ (xs ++ T))).isSome = true := by
+  cases oq with
+  | some q =>
+    simp only [pseudoS]
+    have e : nm ++ '=' :: q.ch :: (v ++ [q.ch]) ++ (xs ++ T) = (nm ++ ['=']) ++ (q.ch :: (v ++ (q.ch :: (xs ++ T)))) := by
+      simp
+    rw [e, ws0_def]
+    have hd : ((nm ++ ['=']) ++ (q.ch :: (v ++ (q.ch :: (xs ++ T))))).dropWhile isSpace =
+        (nm ++ ['=']) ++ (q.ch :: (v ++ (q.ch :: (xs ++ T)))) := by
+      subst hnm
+      simp [List.dropWhile, hc0]
+    rw [hd]
+    apply segs_opt_some
+    apply items_lit_some
+    apply items_openq_some (hq := quote_cases q)
+    apply items_cap_some (hv := hv) (hp := hp) (hs := by intro c hc; simp at hc; subst hc; exact hpq q)
+    apply items_closeq_some (hq := rfl)
+    show (matchSegs (W0 :: more) _ (xs ++ T)).isSome = true
+    rw [W0, matchSegs_item, ws0_absorb _ _ _ _ hxs]
+    exact hnext _
+  | none =>
+    simp only [pseudoS, List.nil_append]
+    rw [ws0_absorb _ _ _ _ hxs, ws0_def, matchSegs_opt]
+    have hfail : matchItems [.lit (nm ++ ['=']), .openq, .cap p, .closeq] (matchSegs (W0 :: more)) st
+        (T.dropWhile isSpace) = none := by
+      show stepItem (.lit (nm ++ ['='])) _ st _ = none
+      exact lit_head_fail _ _ _ _ c0 (nm' ++ ['=']) (by subst hnm; rfl) (habs rfl)
+    rw [hfail]
+    simp only
+    rw [W0, matchSegs_item, ws0_def, dropWhile_idem]
+    have := hnext { st with caps := List.replicate (capCount [.lit (nm ++ ['=']), .openq, .cap p, .closeq]) none ++ st.caps }
+    rw [ws0_def] at this
+    exact this
+
+theorem nh_stage (nm : Str) (c0 : Char) (nm' v : Str) (oq : Option Quote) (xs T : Str) (hnm : nm = c0 :: nm')
+    (hc0 : isSpace c0 = false) (hxs : allSpace xs) :
+    ((pseudoS nm v oq ++ (xs ++ T)).dropWhile isSpace).head? =
+      match oq with
+      | some _ => some c0
+      | none => (T.dropWhile isSpace).head? := by
+  cases oq with
+  | some q => subst hnm; simp [pseudoS, List.dropWhile, hc0]
+  | none => simp only [pseudoS, List.nil_append]; rw [dropWhile_ws xs T hxs]
+
+theorem xmlRegex_eq : xmlRegex =
+    [ L "<?xml", W1,
+      .opt [.lit ("version".toList ++ ['=']), .openq, .cap isDigitDot, .closeq], W0,
+      .opt [.lit ("encoding".toList ++ ['=']), .openq, .cap isWordDash, .closeq], W0,
+      .opt [.lit ("standalone".toList ++ ['=']), .openq, .cap isWord, .closeq], W0,
+      L "?>", W0 ] := by rfl
+
+/-- **`XML_REGEX` matches every XML declaration of the layout family**: each pseudo-attribute present (either
+    quote) or absent, any whitespace -/
+theorem xml_match_gen (lay : V2Lay) (rest : Str) (h1 : lay.xs1 ≠ []) (a1 : allSpace lay.xs1) (a2 : allSpace lay.xs2)
+    (a3 : allSpace lay.xs3) (a4 : allSpace lay.xs4) :
+    (reMatch xmlRegex (v2Xml lay ++ rest)).isSome = true := by
+  have qdd : ∀ q : Quote, isDigitDot q.ch = false := by intro q; cases q <;> decide
+  have qwd : ∀ q : Quote, isWordDash q.ch = false := by intro q; cases q <;> decide
+  have qw : ∀ q : Quote, isWord q.ch = false := by intro q; cases q <;> decide
+  have etext : v2Xml lay ++ rest = "<?xml".toList ++ (lay.xs1 ++ (pseudo "version" "1.0" lay.xmlVersion ++ (lay.xs2 ++
+      (pseudo "encoding" "UTF-8" lay.xmlEncoding ++ (lay.xs3 ++ (pseudo "standalone" "no" lay.xmlStandalone ++
+      (lay.xs4 ++ ("?>".toList ++ rest)))))))) := by
+    simp [v2Xml]
+  have hfin : ∀ st', (stepItem .ws0 (matchSegs [L "?>", W0]) st' ("?>".toList ++ rest)).isSome = true := by
+    intro st'
+    rw [ws0_def]
+    have : ("?>".toList ++ rest).dropWhile isSpace = "?>".toList ++ rest := by
+      have : "?>".toList = ['?', '>'] := by decide
+      rw [this]; exact dropWhile_q _
+    rw [this]
+    unfold L W0
+    apply segs_lit_some
+    rfl
+  have hq : (("?>".toList ++ rest).dropWhile isSpace).head? = some '?' := by
+    have : "?>".toList = ['?', '>'] := by decide
+    rw [this]; simp only [List.cons_append, List.nil_append, dropWhile_q]; rfl
+  rw [etext, xmlRegex_eq]
+  simp only [pseudo_eq]
+  unfold reMatch
+  unfold L W1
+  apply segs_lit_some
+  rw [matchSegs_item, ws1_to_ws0 _ _ _ _ h1 a1]
+  apply xml_stage _ 'v' "ersion".toList _ _ _ _ _ _ _ (by decide) (by decide) (by decide) (by decide) qdd a2
+  · intro _ c hc
+    rw [nh_stage _ 'e' "ncoding".toList _ _ _ _ (by decide) (by decide) a3,
+      nh_stage _ 's' "tandalone".toList _ _ _ _ (by decide) (by decide) a4, hq] at hc
+    revert hc
+    cases lay.xmlEncoding <;> cases lay.xmlStandalone <;> intro hc <;> simp at hc <;> subst hc <;> decide
+  intro st1
+  apply xml_stage _ 'e' "ncoding".toList _ _ _ _ _ _ _ (by decide) (by decide) (by decide) (by decide) qwd a3
+  · intro _ c hc
+    rw [nh_stage _ 's' "tandalone".toList _ _ _ _ (by decide) (by decide) a4, hq] at hc
+    revert hc
+    cases lay.xmlStandalone <;> intro hc <;> simp at hc <;> subst hc <;> decide
+  intro st2
+  apply xml_stage _ 's' "tandalone".toList _ _ _ _ _ _ _ (by decide) (by decide) (by decide) (by decide) qw a4
+  · intro _ c hc
+    rw [hq] at hc
+    simp at hc; subst hc; decide
+  exact hfin
+
+theorem plain_pseudo (name v : String) (oq : Option Quote) (hn : ∀ c ∈ name.toList, plain c)
+    (hv : ∀ c ∈ v.toList, plain c) : ∀ c ∈ pseudo name v oq, plain c := by
+  cases oq with
+  | none => intro c hc; simp [pseudo] at hc
+  | some q =>
+    intro c hc
+    simp only [pseudo, List.mem_append, List.mem_cons, List.mem_singleton] at hc
+    rcases hc with h | h | h | h | h
+    · exact hn c h
+    · subst h; exact ⟨by decide, by decide, by decide⟩
+    · subst h; exact plain_quote q
+    · exact hv c h
+    · rcases h with h | h
+      · subst h; exact plain_quote q
+      · cases h
+
+theorem v2Xml_shape (lay : V2Lay) (w1 : wsNoLF lay.xs1 = true) (w2 : wsNoLF lay.xs2 = true)
+    (w3 : wsNoLF lay.xs3 = true) (w4 : wsNoLF lay.xs4 = true) :
+    ∃ X', (∀ rest, v2Xml lay ++ rest = '<' :: '?' :: 'x' :: (X' ++ rest)) ∧ ∀ c ∈ X', plain c := by
+  refine ⟨"ml".toList ++ (lay.xs1 ++ (pseudo "version" "1.0" lay.xmlVersion ++ (lay.xs2 ++
+    (pseudo "encoding" "UTF-8" lay.xmlEncoding ++ (lay.xs3 ++ (pseudo "standalone" "no" lay.xmlStandalone ++
+    (lay.xs4 ++ "?>".toList))))))), ?_, ?_⟩
+  · intro rest
+    have : "<?xml".toList = '<' :: '?' :: 'x' :: "ml".toList := by decide
+    simp [v2Xml, this]
+  · have l0 : ∀ c ∈ "ml".toList, plain c := by unfold plain; decide
+    have l7 : ∀ c ∈ "?>".toList, plain c := by unfold plain; decide
+    have p1 := plain_pseudo "version" "1.0" lay.xmlVersion (by unfold plain; decide) (by unfold plain; decide)
+    have p2 := plain_pseudo "encoding" "UTF-8" lay.xmlEncoding (by unfold plain; decide) (by unfold plain; decide)
+    have p3 := plain_pseudo "standalone" "no" lay.xmlStandalone (by unfold plain; decide) (by unfold plain; decide)
+    intro c hc
+    simp only [List.mem_append] at hc
+    rcases hc with h | h | h | h | h | h | h | h | h
+    · exact l0 c h
+    · exact plain_ws _ w1 c h
+    · exact p1 c h
+    · exact plain_ws _ w2 c h
+    · exact p2 c h
+    · exact plain_ws _ w3 c h
+    · exact p3 c h
+    · exact plain_ws _ w4 c h
+    · exact l7 c h
 
 theorem nonEmptyWs_spec (s : Str) (h : nonEmptyWs s = true) : s ≠ [] ∧ allSpace s ∧ isAscii s := by
   simp only [nonEmptyWs, Bool.and_eq_true, Bool.not_eq_true', List.isEmpty_eq_false_iff] at h
@@ -336,27 +547,26 @@ theorem nonEmptyWs_spec (s : Str) (h : nonEmptyWs s = true) : s ≠ [] ∧ allSp
 
 theorem noLt_space (w : Str) (h : allSpace w) : '<' ∉ w := fun hm => absurd (h _ hm) (by decide)
 
-theorem isAscii_ofxNF (s0 v1 s1 v2 s2 v3 s3 v4 s4 v5 bc gap : Str) (h0 : isAscii s0) (h1 : isAscii s1)
-    (h2 : isAscii s2) (h3 : isAscii s3) (h4 : isAscii s4) (hbc : isAscii bc) (hg : isAscii gap)
+theorem quote_ascii (q : Quote) : q.ch.toNat < 128 := by cases q <;> decide
+
+theorem isAscii_ofxNF (s0 v1 s1 v2 s2 v3 s3 v4 s4 v5 bc gap : Str) (q0 q1 q2 q3 q4 : Quote) (h0 : isAscii s0)
+    (h1 : isAscii s1) (h2 : isAscii s2) (h3 : isAscii s3) (h4 : isAscii s4) (hbc : isAscii bc) (hg : isAscii gap)
     (a1 : isAscii v1) (a2 : isAscii v2) (a3 : isAscii v3) (a4 : isAscii v4) (a5 : isAscii v5) :
-    isAscii (ofxNF s0 v1 s1 v2 s2 v3 s3 v4 s4 v5 bc gap []) := by
+    isAscii (ofxNF s0 v1 s1 v2 s2 v3 s3 v4 s4 v5 bc gap [] q0.ch q1.ch q2.ch q3.ch q4.ch) := by
   have l : ∀ x : String, x.toList.all (fun c => decide (c.toNat < 128)) = true → isAscii x.toList := by
     intro x hx c hc
     simpa using List.all_eq_true.1 hx c hc
   unfold ofxNF
-  simp only [isAscii_append]
-  refine ⟨l _ (by decide), h0, l _ (by decide), a1, l _ (by decide), h1, l _ (by decide), a2, l _ (by decide), h2,
-    l _ (by decide), a3, l _ (by decide), h3, l _ (by decide), a4, l _ (by decide), h4, l _ (by decide), a5,
-    l _ (by decide), hbc, l _ (by decide), hg, isAscii_nil⟩
+  simp only [isAscii_append, isAscii_cons]
+  refine ⟨l _ (by decide), h0, l _ (by decide), quote_ascii q0, a1, quote_ascii q0, h1, l _ (by decide), quote_ascii q1, a2,
+    quote_ascii q1, h2, l _ (by decide), quote_ascii q2, a3, quote_ascii q2, h3, l _ (by decide), quote_ascii q3, a4,
+    quote_ascii q3, h4, l _ (by decide), quote_ascii q4, a5, quote_ascii q4, hbc, l _ (by decide), hg, isAscii_nil⟩
 
-/-- **C05 for v2 files** (XML declaration with its three pseudo-attributes, OFX declaration in double quotes,
-    first line ASCII) -/
+/-- **C05 for v2 files**: every tolerated layout -/
 theorem parse_v2 (p1 : V1P) (p2 : V2P) (tbl : List (Option Nat)) (lay : V2Lay) (h : V2) (body : Str) (bb : Bytes)
     (hv : ValidV2 p2 h) (henc : encode tbl .utf8 body = .ok bb)
     (hb0 : body.head? = some '<') (hb1 : body.getLast? = some '>')
-    (htol : lay.tolerated = true) (hq : lay.dquoted = true) (hfl : firstLineAscii lay h bb = true)
-    (qv qe qs : Quote) (hx1 : lay.xmlVersion = some qv) (hx2 : lay.xmlEncoding = some qe)
-    (hx3 : lay.xmlStandalone = some qs) :
+    (htol : lay.tolerated = true) :
     parseHeader p1 p2 tbl (renderV2 lay h bb) = .ok (.v2 h, body) := by
   -- unpack the layout conditions
   simp only [V2Lay.tolerated, Bool.and_eq_true, decide_eq_true_eq, Bool.not_eq_true', List.isEmpty_eq_false_iff] at htol
@@ -372,24 +582,22 @@ theorem parse_v2 (p1 : V1P) (p2 : V2P) (tbl : List (Option Nat)) (lay : V2Lay) (
   obtain ⟨aaft, iaft⟩ := asciiSpace_spec _ taft
   obtain ⟨c1, _⟩ := pyStrInt_small _ hv.oh0.1 hv.oh0.2
   obtain ⟨c2, _⟩ := pyStrInt_small _ hv.ver0.1 hv.ver0.2
-  obtain ⟨X', hX, hX'⟩ := xmlNF_shape lay.xs1 lay.xs2 lay.xs3 lay.xs4 qv qe qs tx1 tx2 tx3 tx4
+  obtain ⟨X', hXml, hX'⟩ := v2Xml_shape lay tx1 tx2 tx3 tx4
   obtain ⟨brest, hbody⟩ : ∃ r, body = '<' :: r := by
     cases body with
     | nil => simp at hb0
     | cons c r => simp at hb0; exact ⟨r, by rw [hb0]⟩
   -- the text after the leading blank lines
   let O : Str := ofxNF lay.s0 (pyStrInt h.ofxheader) lay.s1 (pyStrInt h.version) lay.s2 h.security lay.s3
-      h.oldfileuid lay.s4 h.newfileuid lay.beforeClose lay.gap []
-  have hO : v2Ofx lay h = O := by have := v2Ofx_nf lay h hq []; simpa using this
+      h.oldfileuid lay.s4 h.newfileuid lay.beforeClose lay.gap [] lay.q0.ch lay.q1.ch lay.q2.ch lay.q3.ch lay.q4.ch
+  have hO : v2Ofx lay h = O := by have := v2Ofx_nf lay h []; simpa using this
   have hOR : ∀ R, O ++ R = ofxNF lay.s0 (pyStrInt h.ofxheader) lay.s1 (pyStrInt h.version) lay.s2 h.security lay.s3
-      h.oldfileuid lay.s4 h.newfileuid lay.beforeClose lay.gap R := by
-    intro R; rw [← hO]; exact v2Ofx_nf lay h hq R
-  have hXml : ∀ rest, v2Xml lay ++ rest = '<' :: '?' :: 'x' :: (X' ++ rest) := by
-    intro rest; rw [v2Xml_nf lay qv qe qs hx1 hx2 hx3, hX]
+      h.oldfileuid lay.s4 h.newfileuid lay.beforeClose lay.gap R lay.q0.ch lay.q1.ch lay.q2.ch lay.q3.ch lay.q4.ch := by
+    intro R; rw [← hO]; exact v2Ofx_nf lay h R
   have hT : v2Xml lay ++ (lay.afterXml ++ v2Ofx lay h) = '<' :: '?' :: 'x' :: (X' ++ (lay.afterXml ++ O)) := by
     rw [hXml, hO]
   have iX' : isAscii X' := fun c hc => (hX' c hc).1
-  have iO : isAscii O := isAscii_ofxNF _ _ _ _ _ _ _ _ _ _ _ _ i0 i1 i2 i3 i4 ibc ig
+  have iO : isAscii O := isAscii_ofxNF _ _ _ _ _ _ _ _ _ _ _ _ _ _ _ _ _ i0 i1 i2 i3 i4 ibc ig
     (isAscii_class _ digit_wordDash _ c1.2) (isAscii_class _ digit_wordDash _ c2.2)
     (isAscii_class _ word_wordDash _ hv.sec.2.2) (isAscii_class _ (fun _ h => h) _ hv.old.1.2)
     (isAscii_class _ (fun _ h => h) _ hv.new.1.2)
@@ -428,11 +636,6 @@ theorem parse_v2 (p1 : V1P) (p2 : V2P) (tbl : List (Option Nat)) (lay : V2Lay) (
     rw [hfile, ← hsdef]
     exact List.drop_left' (asciiBytes_length _)
   -- the first line
-  have hasc1 : asciiB (splitLine F) := by
-    have e : asciiBytes (v2Xml lay ++ (lay.afterXml ++ v2Ofx lay h)) ++ bb = F := by rw [hT]
-    simp only [firstLineAscii, e, firstLines_succ, firstLines, List.append_nil, List.all_eq_true,
-      decide_eq_true_eq] at hfl
-    exact hfl
   have hXlf : hasLF ('<' :: '?' :: 'x' :: X') = false := by
     simp only [hasLF, List.any_eq_false, beq_iff_eq, List.mem_cons]
     intro c hc
@@ -456,16 +659,16 @@ theorem parse_v2 (p1 : V1P) (p2 : V2P) (tbl : List (Option Nat)) (lay : V2Lay) (
     rw [findHeader_leading _ lay.leading tlead' 8 0 F (by rw [List.drop_zero, hfile]) (by omega)]
     obtain ⟨k, hk⟩ : ∃ k, 8 - lay.leading.length = k + 1 := ⟨7 - lay.leading.length, by omega⟩
     rw [hk, findHeader]
-    simp only [readline, Nat.zero_add, hsdef, hdropF, decodeAscii_of_ascii _ hasc1, bind, Except.bind]
+    simp only [readline, Nat.zero_add, hsdef, hdropF]
     have : strip (chars (splitLine F)) ≠ [] :=
       strip_ne_nil_of_mem _ '<' (by rw [hline1]; simp) (by decide)
     cases hst : strip (chars (splitLine F)) with
     | nil => exact absurd hst this
-    | cons c cs => rfl
+    | cons c cs => simp [chars] at hst ⊢; simp [hst]; rfl
   obtain ⟨xr, hxml⟩ := Option.isSome_iff_exists.1 (by
-    have := xml_match lay.xs1 lay.xs2 lay.xs3 lay.xs4 (chars (splitLine (asciiBytes (lay.afterXml ++ O) ++ bb)))
-      qv qe qs x1ne (wsNoLF_spec _ tx1).1 (wsNoLF_spec _ tx2).1 (wsNoLF_spec _ tx3).1 (wsNoLF_spec _ tx4).1
-    rw [hX] at this
+    have := xml_match_gen lay (chars (splitLine (asciiBytes (lay.afterXml ++ O) ++ bb)))
+      x1ne (wsNoLF_spec _ tx1).1 (wsNoLF_spec _ tx2).1 (wsNoLF_spec _ tx3).1 (wsNoLF_spec _ tx4).1
+    rw [hXml] at this
     simpa [hline1] using this : (reMatch xmlRegex (chars (splitLine F))).isSome = true)
   -- the whole file decoded as UTF-8
   have hdec : decodeUtf8 (renderV2 lay h bb) = .ok (leadingText lay.leading ++ (T ++ body)) := by
@@ -495,7 +698,7 @@ theorem parse_v2 (p1 : V1P) (p2 : V2P) (tbl : List (Option Nat)) (lay : V2Lay) (
       · exact noLt_space _ aaft hm)]
     apply reSearch_of_match
     rw [hOR]
-    exact v2_match _ _ _ _ _ _ _ _ _ _ _ _ _ n0 a0 n1 a1 n2 a2 n3 a3 n4 a4 abc ag c1 c2 hv.sec.2 hv.old.1 hv.new.1
+    exact v2_match _ _ _ _ _ _ _ _ _ _ _ _ _ _ _ _ _ _ n0 a0 n1 a1 n2 a2 n3 a3 n4 a4 abc ag c1 c2 hv.sec.2 hv.old.1 hv.new.1
       (by rw [hbody]; intro c hc; simp at hc; subst hc; decide)
   have hparse : parseV2 p2 (leadingText lay.leading ++ (T ++ body)) =
       .ok (h, (leadingText lay.leading ++ T).length) := by
